@@ -190,7 +190,8 @@ CHECKS.update({
 CHECKS.update({
     "C18": (True, "inter-procedural effect analysis (transform is read-only), call-wiring rule for fit_transform, and "
                   "history-dependence analysis by symbolically executing two successive fits on different generic data (no verdict on "
-                  "an inexact run); TF-FIXED: a user-fixed end-point is still the user's symbol after two fits",
+                  "an inexact run); TF-FIXED: a user-fixed end-point is still the user's symbol after two fits; TF-ORDER: transform / "
+                  "fit_transform evaluated on collections of 2-5 diagrams, serial and n_jobs=2, with the per-diagram routine observed",
             CLAUSE + "Decides TF-RO, TF-DATA (fit / transform / fit_transform never write through the data they are given), TF-FT, "
             "TF-ORDER, TF-HIST. The landscaper latches start/stop across fits: genuine defect "
             "kept as known findings K2-start/K2-stop (a latch on any other attribute is still reported). Declines: numerical "
